@@ -24,6 +24,9 @@ type scen struct {
 }
 
 func (s scen) name() string {
+	if s.kind == "platform-late-error" {
+		return fmt.Sprintf("first-ends=crash-at-timeout rogue=none(the platform's own error report for #1 may be late) ext=%v B=%d", s.ext, s.bound)
+	}
 	if s.kind == "slow-response" {
 		return fmt.Sprintf("first-ends=%s rogue=%s(tail after %d ms) ext=%v B=%d", s.ending, s.kind, s.tailMs, s.ext, s.bound)
 	}
@@ -57,6 +60,15 @@ func (s scen) config(rp **rec) *stack.Config {
 			r.ids = append(r.ids, n.ReqID)
 			k := len(r.ids)
 			r.curID, r.curDone = n.ReqID, false
+			if s.kind == "platform-late-error" {
+				switch k {
+				case 2: // invocation 1: the process dies at the very moment the timeout expires (timer tie: both orders)
+					rt.Sleep(3000 * 1e6)
+					rt.Exit(1)
+				case 3: // invocation 2 is in flight for a while, everybody waits
+					rt.Sleep(500 * 1e6)
+				}
+			}
 			if k == 1 {
 				switch s.ending {
 				case "timeout":
@@ -121,6 +133,18 @@ func (s scen) run(c *hx.Ctx) *hx.ScenarioResult {
 			s.slow(w, r)
 			return
 		}
+		if s.kind == "platform-late-error" {
+			// no rogue client: the stale submission is the platform's own default error response for #1, produced by
+			// a goroutine that may be held back until everybody else waits (sched.HoldBack)
+			sched.Region(true)
+			w.Invoke(echo(1), nil)
+			w.Invoke(echo(2), nil)
+			sched.Region(false)
+			vtime.Sleep(100 * 1e6)
+			w.Invoke(echo(3), nil)
+			sched.Finish()
+			return
+		}
 		w.Invoke(echo(1), nil)
 		sched.Region(true)
 		// the rogue client: any local process that kept an id; free to run at any point of invocation 2
@@ -168,7 +192,7 @@ func (s scen) run(c *hx.Ctx) *hx.ScenarioResult {
 		w.Invoke(echo(3), nil)
 		sched.Finish()
 	}
-	return hx.ExploreScenario(c, "C02", s.name(), sched.Options{Bound: s.bound, MaxSteps: 100000, BoundAll: true, NoEarlyClock: true}, body, s.judge)
+	return hx.ExploreScenario(c, "C02", s.name(), sched.Options{Bound: s.bound, MaxSteps: 100000, BoundAll: true, NoEarlyClock: true, HoldBack: s.kind == "platform-late-error", HoldLagNs: 150e6}, body, s.judge)
 }
 
 // slow: a second thread of the function (a process the platform does not kill) starts submitting the response
@@ -224,7 +248,7 @@ func (s scen) judge(e *sched.Exec) (string, string, *sched.Failure) {
 			failf("1", fmt.Sprintf("rogue-status-%d:%s", c.Status, s.kind), "the %s submission got status %d, expected a 4xx refusal", s.kind, c.Status)
 		}
 	}
-	if len(r.rogue) == 0 {
+	if len(r.rogue) == 0 && s.kind != "platform-late-error" {
 		failf("1", "rogue-not-run", "the rogue submission was never made")
 	}
 	// (2) no effect: invocations 2 and 3 end exactly as without the rogue submission
@@ -263,6 +287,10 @@ func init() {
 					ss = append(ss, scen{ending: end, kind: k, ext: true, bound: 1})
 				}
 			}
+		}
+		ss = append(ss, scen{ending: "success", kind: "platform-late-error", bound: b})
+		if tier == "thorough" {
+			ss = append(ss, scen{ending: "success", kind: "platform-late-error", ext: true, bound: b})
 		}
 		tails := []int{3250}
 		if tier == "thorough" {
